@@ -32,6 +32,25 @@ theorem EngineTie_hasChanged (w : World) (t v : Nat) (st : Option Nat) :
 theorem EngineTie_recordStates (P : Project) (g : G) (cfg : Cfg) (w : World) (t : Nat) :
     recordStatesGen P g cfg w t = recordStates P g cfg w t := recordStatesGen_eq P g cfg w t
 
+/-- The row loop of `update_states_in_database` (one `_create_or_update_state` upsert per element of
+`node_and_neighbors`, keyed (task signature, node signature), storing `node.state()`), interpreted from the extracted
+facts, is the model's `updateStates` on every reachable call: all neighbours have a state (ensured by the teardown
+checks before SUCCESS and by `all(all_states)` before PERSISTENCE). -/
+theorem EngineTie_updateStates (P : Project) (g : G) (w : World) (t : Nat) (vs : List Nat)
+    (h : ∀ v ∈ vs, (stateOf P w v).isSome = true) : updateStatesGen P g w t vs = updateStates P g w t vs :=
+  updateStatesGen_eq P g w t vs h
+
+/-- Whether `update_states_in_database` raises (a neighbour without state meets the NOT NULL column) is the same in the
+interpreted loop and in the model, for all arguments. -/
+theorem EngineTie_updateStates_ok (P : Project) (g : G) (w : World) (t : Nat) (vs : List Nat) :
+    (updateStatesGen P g w t vs).2 = (updateStates P g w t vs).2 := updateStatesGen_ok P g w t vs
+
+/-- If it raises, nothing of the call is recorded: all rows are one transaction (`Generated.rowsSingleTransaction`,
+extracted by extract_crash). (The model's clause for this unreachable case keeps the rows before the failing one.) -/
+theorem EngineTie_updateStates_atomic (P : Project) (g : G) (w : World) (t : Nat) (vs : List Nat)
+    (h : (updateStatesGen P g w t vs).2 = false) : (updateStatesGen P g w t vs).1 = w :=
+  updateStatesGen_fail P g w t vs w h
+
 /-- The loop of `execute.pytask_execute_task_setup` over `node_and_neighbors` — its extracted steps (break once the
 task is known to run and the node is no predecessor; skip provisional products; raise for a predecessor without
 state; `continue` when the task is known to run; else `needs := has_node_changed`) and its predecessor set — computes
@@ -130,5 +149,11 @@ example : let w : World := ⟨[(10, 5), (90, 7), (22, 1)], []⟩
 /-- A dry-run: the interpreted engine reports WOULD_BE_EXECUTED for the due task and its dependants, runs nothing. -/
 example : (buildGen tieF tieP { dry := true } tieW [0, 2, 1, 3]).toOption.map (fun r => (r.reports, r.log, r.w.db)) =
     some ([(0, .wouldBeExecuted), (2, .wouldBeExecuted), (1, .wouldBeExecuted), (3, .skip)], [], []) := by decide
+
+/-- The hypothesis of `EngineTie_updateStates` is satisfiable (rows are upserted: the old row of (0, 21) is replaced), and so
+is the failing case of `EngineTie_updateStates_atomic` (vertex 41 has no state: nothing is recorded). -/
+example : (updateStatesGen tieP G.empty ⟨[(10, 5), (90, 7)], [((0, 21), 1)]⟩ 0 [21, 0]).1.db = [((0, 0), 7), ((0, 21), 5)] ∧
+    (let r := updateStatesGen tieP G.empty ⟨[(10, 5), (90, 7)], [((0, 21), 1)]⟩ 0 [21, 41]; (r.1.db, r.2)) = ([((0, 21), 1)], false) := by
+  decide
 
 end Pytask
